@@ -119,9 +119,25 @@ def check(pid: str, tier: str, seed: int):
         langs = []
         for L in exhaustive_langs(3 if tier == 'quick' else 4):
             langs.append(('exhaustive', L))
+        # declaration order: the same chains declared leaf-first (every asset before its super asset) and shuffled —
+        # what a type exposes is a function of its ancestors' declarations, not of where they stand in the file
+        import copy as _copy
+        for k, L in enumerate(exhaustive_langs(3 if tier == 'quick' else 4)):
+            if tier == 'quick' and k % 2:
+                continue
+            L2 = _copy.deepcopy(L)
+            if k % 4 == 0:
+                L2['assets'] = list(reversed(L2['assets']))
+            else:
+                rng.shuffle(L2['assets'])
+            langs.append(('declaration-order', L2))
         gen = LG.LangGen(rng)
-        for _ in range(250 if tier == 'quick' else 3000):
-            langs.append(('random', gen.gen()))
+        for k in range(250 if tier == 'quick' else 3000):
+            L = gen.gen()
+            if k % 3 == 0:
+                L = _copy.deepcopy(L)
+                rng.shuffle(L['assets'])
+            langs.append(('random', L))
         for stream, L in langs:
             try:
                 queries, unchanged, extra, snap = run_history(impl, L, rng)
